@@ -15,7 +15,8 @@ LEVEL = "exploration"
 RULE = ("Exhaustive: every byte string up to length L over a 26-symbol alphabet with one representative per "
         "lexical class (quick: L<=4 full + L=5 over a 14-symbol core; thorough: L<=5 full + L=6 core), each "
         "tokenised with BUFSIZ in {1..len+1, 4096}; plus Hypothesis strings of token fragments up to 300 bytes "
-        "with BUFSIZ in {1,2,3,5,7,16,4096}. Oracle: nexttoken() loop ends with PSEOF within 20*len+50 calls, "
+        "with BUFSIZ in {1,2,3,5,7,16,4096}; plus long runs (1100..9000 repetitions of every fragment / alphabet "
+        "byte, bare, after `1 ` and inside a string) with BUFSIZ in {7,1024,2048,4096,8192}; thorough: atheris. Oracle: nexttoken() loop ends with PSEOF within 20*len+50 calls, "
         "raises nothing else, positions non-decreasing within [0,len), (pos,token) sequence identical for all "
         "BUFSIZ. Non-trivial = at least one token whose lexeme is >= 2 bytes (so a refill falls inside it at "
         "BUFSIZ=1); distinct by input string.")
@@ -115,7 +116,11 @@ def run_case(case):
         if got != ref:
             return Outcome(fail="data=%r: tokens differ between BUFSIZ=%d %r and BUFSIZ=4096 %r" % (data, b, got, ref))
     nt = any(_lexeme_ge2(t) for _, t in ref)
-    return Outcome(classes=["tokens>0"] if ref else ["no-token"], nontrivial=nt, fp=fingerprint(data))
+    cls = ["tokens>0"] if ref else ["no-token"]
+    if case.get("long"):
+        cls.append("long-run")
+        nt = True
+    return Outcome(classes=cls, nontrivial=nt, fp=fingerprint(data))
 
 
 # ---------------------------------------------------------------------------
@@ -134,6 +139,11 @@ def plan(tier):
         chunk = 40000 if tier == "quick" else 250000
         for lo in range(0, total, chunk):
             specs.append({"kind": "enum", "alpha": name, "L": L, "lo": lo, "hi": min(total, lo + chunk)})
+    # long runs of one atom inside one read buffer (work or stack depth proportional to the run must stay bounded)
+    nl = len(_long_atoms())
+    for lo in range(0, nl, 24 if tier == "quick" else 8):
+        specs.append({"kind": "long", "lo": lo, "hi": min(nl, lo + (24 if tier == "quick" else 8)),
+                      "lengths": [1100, 4200] if tier == "quick" else [300, 1100, 2100, 4200, 9000]})
     nh = 16
     per = 1500 if tier == "quick" else 40000
     for i in range(nh):
@@ -229,9 +239,24 @@ def run_atheris(spec, ctx):
     return res
 
 
+def _long_atoms():
+    return sorted(set(FRAGS) | set(FULL))
+
+
+def _long_cases(spec):
+    atoms = _long_atoms()[spec["lo"]:spec["hi"]]
+    for a in atoms:
+        for n in spec["lengths"]:
+            for pre in (b"", b"1 ", b"("):
+                for suf in (b"", b" 2)"):
+                    yield {"data": pre + a * n + suf, "bufsizes": [7, 1024, 2048, 8192], "long": True}
+
+
 def run_shard(spec, ctx):
     if spec["kind"] == "atheris":
         return run_atheris(spec, ctx)
+    if spec["kind"] == "long":
+        return enum_search(ctx, _long_cases(spec), run_case)
     if spec["kind"] == "enum":
         alpha = FULL if spec["alpha"] == "full" else CORE
         res = enum_search(ctx, _enum_cases(alpha, spec["L"], spec["lo"], spec["hi"]), run_case)
